@@ -553,7 +553,7 @@ pub fn run(cfg: &RunCfg) -> Report {
         &mut rep,
         cfg,
         "short",
-        cfg.cases(120_000, 2_000_000),
+        cfg.cases(1_000_000, 10_000_000),
         || proptest::collection::vec(op_strategy(), 0..14).prop_map(|ops| Case { ops }),
         run_case,
     );
@@ -561,7 +561,7 @@ pub fn run(cfg: &RunCfg) -> Report {
         &mut rep,
         cfg,
         "long",
-        cfg.cases(6_000, 100_000),
+        cfg.cases(50_000, 500_000),
         || proptest::collection::vec(op_strategy(), 20..300).prop_map(|ops| Case { ops }),
         run_case,
     );
